@@ -524,7 +524,7 @@ def units(tier, seed):
     if q:
         orders |= set(range(300, 4096, 397))
     orders = sorted(orders)
-    out = []
+    out = [("interleaved", {"stride": 1, "max": 3000 if q else 30000})]
     ns = 14
     for i in range(ns):
         out.append(("randrange-enum", {"orders": orders[i::ns]}))
@@ -539,7 +539,37 @@ def units(tier, seed):
     return out
 
 
+class _OnesThenTail:
+    """entropy: all-ones chunks (always rejected) for the first `ones` requests, then a deterministic stream"""
+
+    def __init__(self, ones, seed):
+        self.ones, self.seed, self.i = ones, seed, 0
+
+    def __call__(self, n):
+        self.i += 1
+        if self.i <= self.ones:
+            return b"\xff" * n
+        return hashlib.shake_128(self.seed + bytes([self.i])).digest(n)
+
+
+def _interleaved_jobs():
+    n1, n2 = gen.named("NIST256p").n, gen.named("SECP160r1").n
+
+    def a():
+        return [U.randrange(n1, entropy=_OnesThenTail(2, b"a1")), U.randrange(300, entropy=_OnesThenTail(1, b"a2")),
+                U.randrange_from_seed__trytryagain(b"seed-a", n1), U.randrange(n1, entropy=_OnesThenTail(0, b"a3"))]
+
+    def b():
+        return [U.randrange(n2, entropy=_OnesThenTail(1, b"b1")), U.randrange(257, entropy=_OnesThenTail(3, b"b2")),
+                U.randrange_from_seed__trytryagain(b"seed-b", n2), U.randrange(n2, entropy=_OnesThenTail(0, b"b3"))]
+    return {"a": a, "b": b}
+
+
 def run_unit(ctx, name, **kw):
+    if name == "interleaved":
+        from .purity import interleaved_pure
+        interleaved_pure(ctx, "util", [U], _interleaved_jobs(), kw["stride"], max_schedules=kw["max"])
+        return
     if name == "randrange-enum":
         for n in kw["orders"]:
             check_randrange_order(ctx, n)
@@ -598,6 +628,10 @@ def run_unit(ctx, name, **kw):
 
 def replay(ctx, case):
     k = case["kind"]
+    if k == "interleaved":
+        from .purity import interleaved_pure
+        interleaved_pure(ctx, "util", [U], _interleaved_jobs(), 1, max_schedules=3000)
+        return
     if k == "randrange-enum":
         check_randrange_order(ctx, case["n"])
     elif k == "generate-enum":
